@@ -24,12 +24,13 @@ func ShortMethod(m string) string {
 	return Enc(m)
 }
 
-// dlCandidates are the timeouts (ms) the generators configure (0 = the guns' 15 s default).
-var dlCandidates = []int64{2000, 3000, 15000, 40000, 65000, 90000, 115000}
+// dlCandidates are the timeouts (ms) the generators configure (0 = the guns' 15 s default), plus 2 s (never
+// configured: what is left of a 3 s budget after a 1.7 s sleep, should a deadline span several calls).
+var dlCandidates = []int64{2000, 3000, 5000, 8000, 15000, 40000, 65000, 90000, 115000}
 
 // DLBucket classifies the time left at arrival. The time left can only be smaller than the timeout the call was
 // made with, so the bucket is the smallest candidate not below it, provided the call did not take implausibly
-// long to arrive (10 s for the long timeouts, 1.6 s for the short ones: anything slower is reported as "dl?…",
+// long to arrive (10 s for the long timeouts, 1.6 s for the short ones 3 / 5 / 8 s: anything slower is reported as "dl?…",
 // which the Lean driver counts as inconclusive, never as a failure).
 func DLBucket(ms int64) string {
 	if ms < 0 {
